@@ -254,8 +254,10 @@ pub fn gen_valid_req(ctx: &mut Ctx, allow_expect: bool, flow_api: bool) -> ReqCf
     let despite = flow_api && !needs && ctx.chance(1, 8);
     let body_due = needs || despite;
     let uri = gen_uri(ctx);
-    let mut orig = gen_plain_headers(ctx, 12);
-    let mut added = if flow_api { gen_plain_headers(ctx, 6) } else { Vec::new() };
+    // mostly a handful; sometimes up to the documented capacity (60 + the two synthesised ones)
+    let big = ctx.chance(1, 12);
+    let mut orig = gen_plain_headers(ctx, if big { 60 } else { 12 });
+    let mut added = if flow_api { gen_plain_headers(ctx, if big { 58 } else { 6 }) } else { Vec::new() };
     let mut framing = Framing::None;
     if body_due {
         match ctx.draw(4) {
